@@ -4,6 +4,9 @@ CONSTANTS
   Nodes <- MCNodes
   R = 3
   InitK = 3
+  Parts = {0}
+  Writers = {1}
+  RSet = {3}
   MaxEpoch = 6
   MaxID = 6
   G_OnePending = TRUE
@@ -15,8 +18,9 @@ CONSTANTS
   G_Distinct = TRUE
   G_LeftRaft = TRUE
   G_CAS = TRUE
+  G_Surplus = TRUE
   CountCalls = FALSE
   MaxDown = 64
   MaxUnsynced = 64
 CONSTRAINT Bounded
-INVARIANTS C18_OneRemoving C18_QuorumDistinct C18_AddOneWhenInSync C18_IdsNeverReused C18_NoMarkUnreachable Aux_MembersKnown
+INVARIANTS C18_OneRemoving C18_QuorumDistinct C18_AddOneWhenInSync C18_IdsNeverReused C18_NoMarkUnreachable C18x_RoundKeepsInSync C18x_PlacementInputDistinct Aux_MembersKnown
